@@ -26,22 +26,33 @@ Proof.
   induction h; intros; simpl; auto. rewrite IHh. reflexivity.
 Qed.
 
+Lemma take_N_spec : forall bs n h t, take_N n bs = Some (h, t) ->
+  bs = h ++ t /\ N.of_nat (length h) = n.
+Proof.
+  unfold take_N. induction bs as [|b r IH]; intros n h t H; cbn [take_Nf] in H.
+  - destruct (n =? 0) eqn:Z; [|discriminate]. apply N.eqb_eq in Z. inversion H; subst. auto.
+  - destruct (n =? 0) eqn:Z.
+    + apply N.eqb_eq in Z. inversion H; subst. auto.
+    + apply N.eqb_neq in Z. destruct (take_Nf r (N.pred n)) as [[h' t']|] eqn:E; [|discriminate].
+      inversion H; subst. apply IH in E. destruct E as [E1 E2]. subst r. split; [reflexivity|].
+      simpl length. lia.
+Qed.
+
 Lemma take_N_length : forall n bs h t, take_N n bs = Some (h, t) ->
   N.of_nat (length bs) = n + N.of_nat (length t) /\ N.of_nat (length h) = n.
 Proof.
-  unfold take_N. intros n bs h t H.
-  destruct (n <=? N.of_nat (length bs)) eqn:E; [|discriminate].
-  pose proof (take_length _ _ _ _ H). apply take_len in H. destruct H as [H1 _].
-  apply N.leb_le in E. lia.
+  intros n bs h t H. apply take_N_spec in H. destruct H as [E L]. subst bs.
+  rewrite app_length. split; lia.
 Qed.
 
 Lemma take_N_app : forall h t, take_N (N.of_nat (length h)) (h ++ t) = Some (h, t).
 Proof.
-  intros. unfold take_N. rewrite app_length.
-  assert (E : (N.of_nat (length h) <=? N.of_nat (length h + length t)%nat) = true)
-    by (apply N.leb_le; lia).
-  rewrite E.
-  rewrite Nnat.Nat2N.id. apply take_app.
+  unfold take_N. induction h as [|b h IH]; intros t.
+  - simpl. destruct t; reflexivity.
+  - cbn [app take_Nf]. replace (N.of_nat (length (b :: h)) =? 0) with false
+      by (symmetry; apply N.eqb_neq; simpl length; lia).
+    replace (N.pred (N.of_nat (length (b :: h)))) with (N.of_nat (length h)) by (simpl length; lia).
+    rewrite IH. reflexivity.
 Qed.
 
 Lemma varint_dec_length : forall bs v t, varint_dec bs = Some (v, t) ->
